@@ -49,7 +49,7 @@ Section wlive2.
     - intros _. apply winv_init.
     - intros s0 l s1 Hr IH He Hp1.
       pose proof (reachable_step true g roots w s0 l s1 Hr He) as Hr1.
-      destruct (exec_fifo _ _ _ _ _ He) as [t a e ok a' os ob pre rest Ha Hst Hact Hhead Hib Hph Htq Hterm|Hact Hib Hpt].
+      destruct (exec_fifo _ _ _ _ _ He) as [t a e ok a' os ob pre rest Ha Hst Hact Hhead Hib Hph Htq Hterm _|Hact Hib Hpt _].
       + rewrite Hph in Hp1. specialize (IH Hp1).
         eapply (winv_actor_step g roots rank Hrank s0 s1 t a e ok a' os ob pre rest); try done.
         * by eapply wf_reachable.
